@@ -130,7 +130,23 @@ def shards(tier, seed):
     for n, q in fam:
         tasks.append({"gamma_family": [n, q], "tier": tier})
     tasks.append({"known_shapes": True, "tier": tier})
+    # many annotators, unit totals that are not multiples of the annotator count (7 x ~4, 11 x ~2, 6 x ~5 units)
+    many = [(7, 28), (7, 29), (7, 30), (11, 24), (11, 25), (6, 31), (9, 28)]
+    if tier == "thorough":
+        many += [(7, 58), (11, 50), (8, 33), (10, 31), (12, 25), (13, 27)]
+    for p_, n_ in many:
+        tasks.append({"many": [p_, n_], "tier": tier})
     return tasks
+
+
+def many_spec(p_, n_):
+    """p annotators, n units in total dealt round-robin on a regular grid (annotator i slightly shifted)"""
+    anns = [[f"a{i:02d}", []] for i in range(p_)]
+    for k in range(n_):
+        i = k % p_
+        j = k // p_
+        anns[i][1].append([j * 4 + i * 0.125, j * 4 + 2 + i * 0.125, "x"])
+    return {"annotators": anns}
 
 
 KNOWN_SHAPES = [
@@ -149,7 +165,11 @@ def run(task):
     tier = task["tier"]
     if "gamma_family" in task:
         return run_gamma_family(pa, res, *task["gamma_family"])
-    if task.get("known_shapes"):
+    if "many" in task:
+        p_, n_ = task["many"]
+        wmax = 6 if p_ <= 7 else (3 if p_ <= 9 else 2)
+        specs = [(many_spec(p_, n_), list(range(1, wmax + 1)))]
+    elif task.get("known_shapes"):
         specs = [(s, [w, w + 1]) for s, w in KNOWN_SHAPES]
     else:
         u = task["universe"]
